@@ -642,7 +642,10 @@ void cmi_process_cancel_awaiteds(struct cmb_process *pp)
             /* Waits for a process to end, remove ourselves from the waiter list */
            cmb_assert_debug(pa->ptr != NULL);
             struct cmb_process *pw = (struct cmb_process *)pa->ptr;
-            (void)cmi_process_remove_waiter(pw, pp);
+            if (!cmi_slist_is_empty(&(pw->waiters))) {
+                /* Empty if it just ended and our wakeup call is on its way (cancelled below) */
+                (void)cmi_process_remove_waiter(pw, pp);
+            }
         }
         else if (pa->type == CMI_PROCESS_AWAITABLE_EVENT) {
             /* Waits for a specific event, remove ourselves from the event's list */
